@@ -43,9 +43,9 @@ CHECKS = {
     "C18": dict(
         text="Lean theorems on a heap model of Signal/SignalSlice (Core/Signal.lean): reset clears / zeroes the same object in place, add_sensitivity copies on first add (fresh object, aliased by nothing) "
              "and adds in place afterwards, mutating the caller's array afterwards changes nothing held, slice add/set/reset touch only the slice's index set of the base's own array and create a zero "
-             "base sensitivity when absent. Model tied to core_objects.py by exact correspondence after every operation of random op sequences incl. identity classes and alias probes; numpy-spec oracle.",
+             "base sensitivity when absent, at any nesting depth; the heap model refines the functional gather/scatter spec (signal_refines_spec). Model tied to core_objects.py by exact correspondence after every operation of random op sequences incl. identity classes and alias probes; numpy-spec oracle.",
         ref="§5 C18", technique="Lean 4 proof (heap frame lemmas, induction over op lists) + exact correspondence + abstract-spec oracle",
-        note=NOTE_COMMON + "PARTIAL: the slice theorems are proved for depth-1 slices of a base holding a whole array; the full refinement to the gather/scatter spec (signal_refines_spec) and nested-slice depth are covered only by correspondence and the numpy spec oracle."),
+        note=NOTE_COMMON + "All slice theorems hold for chains of view slices of ANY nesting depth with any supported last index kind (composed index list T on the root array; numpy's index-set contract is itself proved: slice_idx_inside); value theorems (slice_get_reads_idx, slice_set_writes_idx, slice_add_accumulates_idx) and the refinement signal_refines_spec (any sequence of slice set/add/reset operations on any number of signals, also sharing arrays, equals the scatter/gather spec). Not claimed (outside the property's quantifier): chains whose INNER index is an integer array (numpy copies); arguments that alias the signal's own array get the frame theorem only."),
     "C20": dict(
         text="Lean theorems: base64 decode(encode bs) = bs for all byte lists (+length, injectivity); parse(render doc) = doc for the VTI grammar as written by write_to_vti (extent, origin, spacing, "
              "sections, array names, component counts, payload bytes; length prefix as coded); cell/point classification, 2-D padding (u,v,0), written-file round trip; ScalarToFile split/join round trip, "
